@@ -1,46 +1,90 @@
 -------------------------------- MODULE MUP --------------------------------
 (***************************************************************************)
 (* C19 (b), design model: MonitorUpdatingPersister (lightning/src/util/     *)
-(* persist.rs) at the granularity of its store operations, over any store   *)
-(* that is an atomic map (MUPAbstract).  Every store operation is one step; *)
-(* a crash can happen between any two of them; accepted lazy removals land  *)
-(* independently or never; single store operations fail (with or without    *)
-(* having taken effect).  The steps conjoin the abstract actions, so every  *)
-(* behaviour of this model is a behaviour of MUPAbstract.                   *)
+(* persist.rs) at the granularity of its store operations, driven by its    *)
+(* caller as ChainMonitor (lightning/src/chain/chainmonitor.rs) implements  *)
+(* it, over any store that is an atomic map (MUPAbstract).  Every store     *)
+(* operation is one step; a crash can happen between any two of them;       *)
+(* accepted lazy removals land independently or never; single store         *)
+(* operations fail (with or without having taken effect).  The steps        *)
+(* conjoin the abstract actions, so every behaviour of this model is a      *)
+(* behaviour of MUPAbstract.                                                *)
 (*                                                                         *)
+(* The persister:                                                           *)
 (*   persist_new_channel         write(monitor)                             *)
-(*   update_persisted_channel    maxp # 0 /\ id % maxp # 0:                 *)
+(*   update_persisted_channel(Some(update))                                 *)
+(*                               maxp # 0 /\ id % maxp # 0:                 *)
 (*                                   write(update file id)                  *)
 (*                               otherwise:                                 *)
 (*                                   write(monitor) ; if that succeeded     *)
 (*                                   lazily remove the update keys          *)
 (*                                   max(0, id - maxp) .. id                *)
-(*   (chain sync, update = None)  write(monitor)                            *)
+(*   update_persisted_channel(None)  write(monitor)                         *)
 (*   a failing write => UnrecoverableError: the node stops (only a crash /  *)
 (*   restart follows); a failing clean-up removal is logged and ignored     *)
 (*   read_channel_monitor_with_updates: read monitor m, list the update     *)
 (*   keys, sort, apply those with key > m.id in order; applying update c to *)
-(*   a monitor at id i works iff c = i + 1 (update_monitor panics else)     *)
+(*   a monitor at id i works iff c = i + 1 (update_monitor panics else) and *)
+(*   the monitor does not REFUSE it (then recovery returns an error)        *)
 (*   cleanup_stale_updates(lazy): read monitor m, list update keys, remove  *)
 (*   (lazily or not) every key <= m.id; aborts on the first failing removal *)
 (*   -- it may run while updates are being persisted.                       *)
+(*   archive_persisted_channel: read the monitor with its updates, write it *)
+(*   under the archive namespace, lazily remove the monitor key.            *)
+(*                                                                         *)
+(* The caller (ChainMonitor):                                               *)
+(*   watch_channel            persist_new_channel                           *)
+(*   update_channel(u)        applies u to the in-memory monitor FIRST.     *)
+(*                            The monitor takes u's id and steps in every   *)
+(*                            case but REFUSES (Err) a pre-close update --  *)
+(*                            new commitment, revocation secret -- once it  *)
+(*                            is closed (funding spend seen / its own       *)
+(*                            commitment broadcast / ChannelForceClosed).   *)
+(*                            accepted: update_persisted_channel(Some(u))   *)
+(*                            refused:  update_persisted_channel(None)      *)
+(*                            -- a refused update must never become an     *)
+(*                            update file: recovery would replay it on a    *)
+(*                            closed monitor and fail.                      *)
+(*   block connection         update_persisted_channel(None) (always when   *)
+(*                            the monitor has claims pending, i.e. as soon  *)
+(*                            as it went on chain; else every few blocks)   *)
+(*   a persister returning InProgress completes later                       *)
+(*   (channel_monitor_updated): the report is deferred                      *)
+(*   archive_fully_resolved_channel_monitors: archive_persisted_channel of  *)
+(*   a closed monitor, which is then forgotten                              *)
+(* Update kinds: "pre" (pre-close: refused by a closed monitor), "fc"       *)
+(* (ChannelForceClosed from the ChannelManager: always accepted, closes the *)
+(* monitor off chain, ends the pre-close updates), "pp" (payment preimage / *)
+(* ReleasePaymentComplete: always accepted).  Monitor states: "open",       *)
+(* "chain" (closed by what it saw on chain while the ChannelManager still   *)
+(* talks to the peer -- this is when updates get refused), "off".           *)
 (***************************************************************************)
 EXTENDS MUPAbstract
 
 CONSTANTS MaxPendings,   \* the values of maximum_pending_updates explored
           MaxUpd,        \* update ids 1..MaxUpd
-          MaxFaults, MaxCrashes, MaxCleanups, MaxSyncs
+          MaxFaults, MaxCrashes, MaxCleanups, MaxSyncs,
+          Kinds,         \* the update kinds explored, a subset of {"pre", "fc", "pp"}
+          MaxCloses,     \* block connections that take the in-memory monitor on chain
+          MaxArchives,
+          MaxDeferred,   \* reports outstanding at once (InProgress ... channel_monitor_updated)
+          RefusedAsUpdate \* FALSE: ChainMonitor's rule.  TRUE: the design mutant "a refused
+                          \* update is handed to the persister like an accepted one"
 
 VARIABLES
   maxp,     \* maximum_pending_updates of this node (fixed at start, kept over restarts)
-  memId,    \* latest update id of the in-memory monitor, -1 = no channel yet
+  memId,    \* latest update id of the in-memory monitor, -1 = no channel (yet / any more)
+  memSt,    \* "open" / "chain" / "off": does the in-memory monitor still accept pre-close updates
+  ukind,    \* kind of the updates 1..memId of the current history
+  stSt,     \* memSt of the monitor snapshot that is stored under the monitor key
   call,     \* the Persist call in progress
   plan,     \* its remaining store operations
   cplan,    \* remaining removals of a cleanup_stale_updates in progress
   halted,   \* a write failed: UnrecoverableError was returned
-  cnt       \* [faults, crashes, cleanups, syncs] used so far
+  deferred, \* ids whose persistence was returned InProgress and is not yet reported complete
+  cnt       \* [faults, crashes, cleanups, syncs, closes, archives] used so far
 
-dvars == <<maxp, memId, call, plan, cplan, halted, cnt>>
+dvars == <<maxp, memId, memSt, ukind, stSt, call, plan, cplan, halted, deferred, cnt>>
 vars == <<avars, dvars>>
 
 NoCall == [kind |-> "none", id |-> 0, failed |-> FALSE]
@@ -50,128 +94,198 @@ SetToSeq(S) ==
       F(T) == IF T = {} THEN <<>> ELSE <<Min(T)>> \o F(T \ {Min(T)})
   IN F(S)
 
-(* what the recovery code computes from a monitor at id m and update files u *)
-RECURSIVE Roll(_, _, _)
-Roll(cur, ks, u) ==
+Op(o, k, lz, st) == [op |-> o, k |-> k, lazy |-> lz, st |-> st]
+
+(* what the recovery code computes from a monitor at id m in state st and update files u: *)
+(* -1 = update_monitor panics (gap / wrong id), -2 = update_monitor refuses (recovery Err) *)
+RECURSIVE Roll(_, _, _, _)
+Roll(cur, st, ks, u) ==
   IF ks = {} THEN cur
   ELSE LET k == Min(ks) IN
-       IF u[k] = cur + 1 THEN Roll(cur + 1, ks \ {k}, u) ELSE -1
+       IF u[k] # cur + 1 THEN -1
+       ELSE IF u[k] \notin DOMAIN ukind THEN -1
+       ELSE IF ukind[u[k]] = "pre" /\ st # "open" THEN -2
+       ELSE Roll(cur + 1, IF ukind[u[k]] = "fc" THEN "off" ELSE st, ks \ {k}, u)
 
-RecoverRes(m, u) ==
+(* the state of the recovered monitor (only meaningful when Roll succeeds) *)
+RollSt(m, st, u) ==
+  IF \E k \in DOMAIN u : k > m /\ u[k] \in DOMAIN ukind /\ ukind[u[k]] = "fc" THEN "off" ELSE st
+
+RecoverRes(m, st, u) ==
   IF m = -1 THEN [kind |-> "none", rid |-> -1, eq |-> FALSE, rf |-> FALSE]
-  ELSE LET r == Roll(m, {k \in DOMAIN u : k > m}, u) IN
+  ELSE LET r == Roll(m, st, {k \in DOMAIN u : k > m}, u) IN
        IF r = -1 THEN [kind |-> "panic", rid |-> -1, eq |-> FALSE, rf |-> FALSE]
+       ELSE IF r = -2 THEN [kind |-> "err", rid |-> -1, eq |-> FALSE, rf |-> FALSE]
        ELSE [kind |-> "ok", rid |-> r, eq |-> TRUE, rf |-> FALSE]
 
 DInit ==
   /\ AInit
   /\ maxp \in MaxPendings
-  /\ memId = -1 /\ call = NoCall /\ plan = <<>> /\ cplan = <<>> /\ halted = FALSE
-  /\ cnt = [faults |-> 0, crashes |-> 0, cleanups |-> 0, syncs |-> 0]
+  /\ memId = -1 /\ memSt = "open" /\ ukind = <<>> /\ stSt = "open"
+  /\ call = NoCall /\ plan = <<>> /\ cplan = <<>> /\ halted = FALSE /\ deferred = {}
+  /\ cnt = [faults |-> 0, crashes |-> 0, cleanups |-> 0, syncs |-> 0, closes |-> 0, archives |-> 0]
 
 Idle == call.kind = "none" /\ ~halted
 
 -----------------------------------------------------------------------------
+(* watch_channel *)
 DNew ==
-  /\ Idle /\ memId = -1 /\ mon = -1
+  /\ Idle /\ memId = -1 /\ mon = -1 /\ cnt.archives = 0
   /\ memId' = 0
   /\ call' = [kind |-> "new", id |-> 0, failed |-> FALSE]
-  /\ plan' = <<[op |-> "wmon", k |-> 0, lazy |-> FALSE]>>
-  /\ UNCHANGED <<avars, maxp, cplan, halted, cnt>>
+  /\ plan' = <<Op("wmon", 0, FALSE, memSt)>>
+  /\ UNCHANGED <<avars, maxp, memSt, ukind, stSt, cplan, halted, deferred, cnt>>
 
-FullPlan(id) ==
-  <<[op |-> "wmon", k |-> id, lazy |-> FALSE]>>
+FullPlan(id, st) ==
+  <<Op("wmon", id, FALSE, st)>>
   \o [i \in 1..(id - (IF id > maxp THEN id - maxp ELSE 0) + 1) |->
-        [op |-> "rm", k |-> (IF id > maxp THEN id - maxp ELSE 0) + i - 1, lazy |-> TRUE]]
+        Op("rm", (IF id > maxp THEN id - maxp ELSE 0) + i - 1, TRUE, st)]
 
-DUpdate ==
+(* update_channel: the in-memory monitor is updated first, then the persister is called *)
+DUpdate(kd) ==
   /\ Idle /\ memId >= 0 /\ memId < MaxUpd
-  /\ LET id == memId + 1 IN
+  /\ kd \in Kinds
+  /\ kd \in {"pre", "fc"} => memSt # "off"     \* the ChannelManager has given the channel up
+  /\ LET id == memId + 1
+         refused == kd = "pre" /\ memSt # "open"
+         st == IF kd = "fc" THEN "off" ELSE memSt IN
      /\ memId' = id
-     /\ call' = [kind |-> "upd", id |-> id, failed |-> FALSE]
-     /\ plan' = IF maxp # 0 /\ id % maxp # 0
-                THEN <<[op |-> "wupd", k |-> id, lazy |-> FALSE]>>
-                ELSE FullPlan(id)
-  /\ UNCHANGED <<avars, maxp, cplan, halted, cnt>>
+     /\ memSt' = st
+     /\ ukind' = [i \in 1..id |-> IF i = id THEN kd ELSE ukind[i]]
+     /\ IF refused /\ ~RefusedAsUpdate
+        THEN /\ call' = [kind |-> "full", id |-> id, failed |-> FALSE]
+             /\ plan' = <<Op("wmon", id, FALSE, st)>>
+        ELSE /\ call' = [kind |-> "upd", id |-> id, failed |-> FALSE]
+             /\ plan' = IF maxp # 0 /\ id % maxp # 0
+                        THEN <<Op("wupd", id, FALSE, st)>>
+                        ELSE FullPlan(id, st)
+  /\ UNCHANGED <<avars, maxp, stSt, cplan, halted, deferred, cnt>>
 
+(* a block connection: update_persisted_channel(None) *)
 DSync ==
   /\ Idle /\ memId >= 0 /\ cnt.syncs < MaxSyncs
   /\ call' = [kind |-> "full", id |-> memId, failed |-> FALSE]
-  /\ plan' = <<[op |-> "wmon", k |-> memId, lazy |-> FALSE]>>
+  /\ plan' = <<Op("wmon", memId, FALSE, memSt)>>
   /\ cnt' = [cnt EXCEPT !.syncs = @ + 1]
-  /\ UNCHANGED <<avars, maxp, memId, cplan, halted>>
+  /\ UNCHANGED <<avars, maxp, memId, memSt, ukind, stSt, cplan, halted, deferred>>
+
+(* a block connection in which the monitor goes on chain (an HTLC timed out: it broadcasts its *)
+(* commitment; or it sees the funding output spent); it has claims pending from now on, so    *)
+(* the block connection persists the full monitor                                             *)
+DChainClose ==
+  /\ Idle /\ memId >= 0 /\ memSt = "open" /\ cnt.closes < MaxCloses
+  /\ memSt' = "chain"
+  /\ call' = [kind |-> "full", id |-> memId, failed |-> FALSE]
+  /\ plan' = <<Op("wmon", memId, FALSE, "chain")>>
+  /\ cnt' = [cnt EXCEPT !.closes = @ + 1]
+  /\ UNCHANGED <<avars, maxp, memId, ukind, stSt, cplan, halted, deferred>>
+
+(* archive_fully_resolved_channel_monitors -> archive_persisted_channel; it reads the monitor *)
+(* back first and does nothing when that fails                                                *)
+DArchive ==
+  /\ Idle /\ memId >= 0 /\ memSt # "open" /\ cnt.archives < MaxArchives /\ cplan = <<>>
+  /\ AArchive
+  /\ call' = [kind |-> "archive", id |-> memId, failed |-> FALSE]
+  /\ plan' = IF RecoverRes(mon, stSt, Without(upds, lazy)).kind = "ok"
+             THEN <<Op("woth", 0, FALSE, memSt), Op("rmmon", 0, TRUE, memSt)>>
+             ELSE <<>>
+  /\ memId' = -1 /\ deferred' = {}     \* the ChainMonitor forgets the monitor
+  /\ cnt' = [cnt EXCEPT !.archives = @ + 1]
+  /\ UNCHANGED <<maxp, memSt, ukind, stSt, cplan, halted>>
 
 (* the store operation o, taking effect or not *)
 Do(o, applied) ==
-  CASE o.op = "wmon" -> AWriteMon(o.k, applied)
-    [] o.op = "wupd" -> AWriteUpd(o.k, o.k, applied)
-    [] o.op = "rm" -> ARemoveUpd(o.k, o.lazy, applied)
+  /\ CASE o.op = "wmon" -> AWriteMon(o.k, applied)
+       [] o.op = "wupd" -> AWriteUpd(o.k, o.k, applied)
+       [] o.op = "rm" -> ARemoveUpd(o.k, o.lazy, applied)
+       [] o.op = "rmmon" -> ARemoveMon(o.lazy, applied)
+       [] o.op = "woth" -> AOther
+  /\ stSt' = IF o.op = "wmon" /\ applied THEN o.st ELSE stSt
 
 DStep ==
   /\ plan # <<>>
   /\ Do(Head(plan), TRUE)
   /\ plan' = Tail(plan)
-  /\ UNCHANGED <<maxp, memId, call, cplan, halted, cnt>>
+  /\ UNCHANGED <<maxp, memId, memSt, ukind, call, cplan, halted, deferred, cnt>>
 
 DStepFail(applied) ==
   /\ plan # <<>> /\ cnt.faults < MaxFaults
   /\ Do(Head(plan), applied)
   /\ cnt' = [cnt EXCEPT !.faults = @ + 1]
-  /\ IF Head(plan).op = "rm"
+  /\ IF Head(plan).op \in {"rm", "rmmon"}
      THEN plan' = Tail(plan) /\ UNCHANGED call           \* logged and ignored
+     ELSE IF call.kind = "archive"
+     THEN plan' = <<>> /\ UNCHANGED call                 \* archive gives up silently
      ELSE plan' = <<>> /\ call' = [call EXCEPT !.failed = TRUE]
-  /\ UNCHANGED <<maxp, memId, cplan, halted>>
+  /\ UNCHANGED <<maxp, memId, memSt, ukind, cplan, halted, deferred>>
 
-DReturn ==
+(* the call returns: Completed is a report; the caller's view of a persister that returned *)
+(* InProgress is that the report comes later (DComplete)                                    *)
+DReturn(defer) ==
   /\ call.kind # "none" /\ plan = <<>>
-  /\ IF call.failed THEN halted' = TRUE /\ UNCHANGED avars
+  /\ defer => ~call.failed /\ call.kind \in {"new", "upd"} /\ Cardinality(deferred) < MaxDeferred
+  /\ IF call.failed THEN halted' = TRUE /\ UNCHANGED <<avars, deferred>>
      ELSE /\ UNCHANGED halted
-          /\ IF call.kind \in {"new", "upd"} THEN AReport(call.id) ELSE UNCHANGED avars
+          /\ IF call.kind \notin {"new", "upd", "full"} THEN UNCHANGED <<avars, deferred>>
+             ELSE IF defer THEN deferred' = deferred \cup {call.id} /\ UNCHANGED avars
+             ELSE AReport(call.id) /\ UNCHANGED deferred
   /\ call' = NoCall
-  /\ UNCHANGED <<maxp, memId, plan, cplan, cnt>>
+  /\ UNCHANGED <<maxp, memId, memSt, ukind, stSt, plan, cplan, cnt>>
+
+(* channel_monitor_updated *)
+DComplete ==
+  \E id \in deferred :
+    /\ AReport(id)
+    /\ deferred' = deferred \ {id}
+    /\ UNCHANGED <<maxp, memId, memSt, ukind, stSt, call, plan, cplan, halted, cnt>>
 
 DLand == \E k \in lazy : ALand(k) /\ UNCHANGED dvars
 
 (* cleanup_stale_updates: lazily removed keys may or may not be listed any more *)
 DCleanup(lz) ==
-  /\ cplan = <<>> /\ mon # -1 /\ cnt.cleanups < MaxCleanups
+  /\ cplan = <<>> /\ mon # -1 /\ cnt.cleanups < MaxCleanups /\ call.kind # "archive"
   /\ \E X \in SUBSET lazy :
        cplan' = [i \in 1..Cardinality({k \in (DOMAIN upds \ lazy) \cup X : k <= mon}) |->
-                   [op |-> "rm", lazy |-> lz,
-                    k |-> SetToSeq({k \in (DOMAIN upds \ lazy) \cup X : k <= mon})[i]]]
+                   Op("rm", SetToSeq({k \in (DOMAIN upds \ lazy) \cup X : k <= mon})[i], lz, "open")]
   /\ cnt' = [cnt EXCEPT !.cleanups = @ + 1]
-  /\ UNCHANGED <<avars, maxp, memId, call, plan, halted>>
+  /\ UNCHANGED <<avars, maxp, memId, memSt, ukind, stSt, call, plan, halted, deferred>>
 
 DCStep ==
   /\ cplan # <<>>
   /\ Do(Head(cplan), TRUE)
   /\ cplan' = Tail(cplan)
-  /\ UNCHANGED <<maxp, memId, call, plan, halted, cnt>>
+  /\ UNCHANGED <<maxp, memId, memSt, ukind, call, plan, halted, deferred, cnt>>
 
 DCStepFail(applied) ==
   /\ cplan # <<>> /\ cnt.faults < MaxFaults
   /\ Do(Head(cplan), applied)
   /\ cplan' = <<>>                                     \* `?` : clean-up gives up
   /\ cnt' = [cnt EXCEPT !.faults = @ + 1]
-  /\ UNCHANGED <<maxp, memId, call, plan, halted>>
+  /\ UNCHANGED <<maxp, memId, memSt, ukind, call, plan, halted, deferred>>
 
 (* Crash between any two store operations, any subset of the accepted lazy  *)
 (* removals landed; the restarted node recovers and carries on from there.  *)
-DCrash(land) ==
+DCrash(land, landmon) ==
   /\ cnt.crashes < MaxCrashes
-  /\ ACrash(land)
-  /\ LET r == RecoverRes(mon, Without(upds, land)) IN
+  /\ ACrash(land, landmon)
+  /\ LET m == IF landmon THEN -1 ELSE mon
+         u == Without(upds, land)
+         r == RecoverRes(m, stSt, u) IN
      /\ memId' = r.rid
+     /\ memSt' = IF r.kind = "ok" THEN RollSt(m, stSt, u) ELSE "open"
+     /\ ukind' = [i \in 1..(IF r.rid > 0 THEN r.rid ELSE 0) |-> ukind[i]]
      /\ halted' = (r.kind # "ok")       \* nothing to carry on with
-  /\ call' = NoCall /\ plan' = <<>> /\ cplan' = <<>>
+  /\ call' = NoCall /\ plan' = <<>> /\ cplan' = <<>> /\ deferred' = {}
   /\ cnt' = [cnt EXCEPT !.crashes = @ + 1]
-  /\ UNCHANGED maxp
+  /\ UNCHANGED <<maxp, stSt>>
 
 -----------------------------------------------------------------------------
 (* The property on the design: at EVERY state, for EVERY subset of landed   *)
 (* lazy removals, the recovery outcome satisfies what MUPAbstract demands   *)
 (* of an observed recovery.                                                 *)
-CrashOutcomes == {RecoverRes(mon, Without(upds, land)) : land \in SUBSET lazy}
+CrashOutcomes ==
+  {RecoverRes(IF lm THEN -1 ELSE mon, stSt, Without(upds, land)) :
+     land \in SUBSET lazy, lm \in {b \in BOOLEAN : b => monLazy}}
 
 CrashRecoveredCoversReported == \A r \in CrashOutcomes : Covers(r)
 CrashRecoveredIsSomeInMemoryState == \A r \in CrashOutcomes : r.kind = "ok" => r.eq
